@@ -75,7 +75,10 @@ Definition proms_le (ps ps' : list promise) : Prop :=
     exists pr', nth_error ps' id = Some pr' /\ p_ok pr' = p_ok pr.
 
 Definition sle (s s' : st) : Prop :=
-  hle (s_maps s) (s_maps s') /\ proms_le (s_proms s) (s_proms s').
+  hle (s_maps s) (s_maps s') /\ proms_le (s_proms s) (s_proms s') /\ incl (s_errs s) (s_errs s').
+
+(** an error landing at this site has been appended to executor.Errors *)
+Definition Fired (s : st) (x : site) : Prop := exists e, In e (s_errs s) /\ lands e x.
 
 (** ** Ghost accounts *)
 Record ghost := { g_sites : list site; g_ids : list nat; g_pot : nat }.
@@ -112,7 +115,8 @@ Section Live.
       LiveSel m p fields futs idxs g ->
       (forall i key fp, nth_error fields i = Some (key, fp) ->
          In i idxs \/
-         ((exists x, nth_error slots i = Some (Some x)) /\ (fp_nn fp = true -> fails_f fp = false))) ->
+         ((exists x, nth_error slots i = Some (Some x)) /\ (fp_nn fp = true -> fails_f fp = false) /\
+          Forall (Fired s) (must_CF fp (PKey key :: p)))) ->
       idxs <> [] ->
       LiveS fields p (CMapOkValue (GMap m) (CAfter futs)) g
 
@@ -132,6 +136,7 @@ Section Live.
   | LIt_ready inn p x tl i v fs res g :
       (inn = true -> fails_w true x = false) ->
       val_ok G (s_maps s) v (jc x) ->
+      Forall (Fired s) (must_CI inn x (PIdx i :: p)) ->
       nth_error res i = Some v ->
       LiveItems inn p tl (S i) fs res g ->
       LiveItems inn p (x :: tl) i (Ready (ROk v) :: fs) res g
